@@ -92,7 +92,8 @@ type Sched struct {
 	Diverged string
 	Trace    []string
 	KeepDesc bool
-	NoBranch bool // deterministic phase: always take alternative 0, record no point, fire no timer
+	NoBranch bool // deterministic phase: always take alternative 0, record no point, fire no timer ...
+	PrefixFires int // ... except up to this many expiries, taken only when nothing else is enabled
 	Errors   []string
 	Panics   []string // panics that reached govnr (recovered by the supervising loop)
 }
@@ -272,7 +273,7 @@ func (s *Sched) enabled() []trans {
 		return a < b
 	})
 	for _, tm := range s.Timers {
-		if tm.Armed && s.Fires < s.MaxFires && !s.NoBranch {
+		if tm.Armed && (!s.NoBranch && s.Fires < s.MaxFires || s.NoBranch && s.Fires < s.PrefixFires && len(r) == 0) {
 			r = append(r, trans{timer: tm})
 		}
 	}
